@@ -199,6 +199,10 @@ def make_project(rng, root, truth, prestates, method=False, rich=False, kinds=KI
                 feats["method_sibling_func_before"] = sib_func_before
             else:
                 lines += src.split("\n") + [""]
+                if rng.random() < 0.3:
+                    # the name is bound once more right after its definition (registration / decoration idiom)
+                    lines += ["{0} = zq_register_{1}({0})".format(name, rng.randint(100, 999)), ""]
+                    feats["{}_rebound_after_definition".format("extra" if is_extra else kind)] = True
         elif is_method:
             lines += ["class C_holder(object):", '    """holder zqdoc"""', "    zq_sibling_attr = 1", "",
                       "    def zq_sibling_before(self, q=1):", "        return q", ""]
